@@ -30,6 +30,9 @@ pub fn big_text(kind: &str, n: usize, seed: u64) -> Vec<u8> {
         "ident" => (0..n).map(|i| if n <= 1 { 0 } else { (i * 255 / (n - 1)) as u8 }).collect(),
         // non-increasing: the suffix array is n-1 .. 0
         "desc" => (0..n).map(|i| if n <= 1 { 0 } else { 255 - (i * 255 / (n - 1)) as u8 }).collect(),
+        // a non-increasing ramp over the low bytes, then random high bytes: the first ranks are consecutive positions,
+        // the later ones are scattered (packed-integer blocks with very different local ranges)
+        "ramp_rand" => { let h = n / 2; (0..n).map(|i| if i < h { 127 - (i * 128 / h.max(1)) as u8 } else { 128 + r.below(128) as u8 }).collect() }
         "period" => { let p = 3 + (seed % 3) as usize; (0..n).map(|i| (i % p) as u8 + 1).collect() }
         "fib" => fibonacci_word(n, 7, 9),
         "square" => { let h: Vec<u8> = (0..n / 2).map(|_| r.below(200) as u8).collect(); let mut t = h.clone(); if n % 2 == 1 { t.push(255); } t.extend_from_slice(&h); t }
@@ -118,15 +121,15 @@ fn core_big(cx: &mut Ctx, thorough: bool) {
 
 // ---------- compress_big ----------
 fn compress_big(cx: &mut Ctx, thorough: bool) {
-    let kinds = ["single", "ident", "desc", "runs", "rand4", "rand256_zt", "period", "square", "fib"];
-    let mut sizes: Vec<usize> = vec![1023, 1024, 1025, 4351, 4352, 9_999, 10_000, 10_001, 16_385];
-    if thorough { sizes.extend([10_002, 20_000, 32_769, 65_535, 65_536]); }
+    let kinds = ["single", "ident", "desc", "runs", "rand4", "rand256_zt", "period", "square", "fib", "ramp_rand"];
+    let mut sizes: Vec<usize> = vec![1023, 1024, 1025, 4351, 4352, 9_999, 10_000, 10_001, 16_385, 20_000];
+    if thorough { sizes.extend([10_002, 32_769, 65_535, 65_536]); }
     let np = cx.comps.len();
     let mut k = 0usize;
     for (si, &n) in sizes.iter().enumerate() {
         for (ki, kind) in kinds.iter().enumerate() {
-            // quick: every size with four of the nine shapes (rotating), the three sizes around 10 000 with all
-            if !thorough && !(9_999..=10_001).contains(&n) && (ki + si) % 9 >= 4 { continue; }
+            // quick: every size with four of the ten shapes (rotating), the three sizes around 10 000 with all
+            if !thorough && !(9_999..=10_001).contains(&n) && (ki + si) % 10 >= 4 && !(*kind == "ramp_rand" && n > 10_000) { continue; }
             k += 1;
             let seed = 2000 + k as u64;
             let t = big_text(kind, n, seed);
@@ -446,8 +449,12 @@ fn dict_hist_family(cx: &mut Ctx, rng: &mut Rng, universe: &[(Vec<u8>, Vec<Vec<u
     for (k, (variant, kind, n)) in big.into_iter().enumerate() {
         let seed = 3000 + k as u64;
         let t = big_text(kind, n, seed);
-        let pv = json!([{"sub": [n / 3, 9]}, {"sub": [n / 2, 5], "push": 7}, {"sub": [n - 6, 6]}, [0, 0, 0], {"sub": [17, 4]}, {"sub": [n / 5, 300]}, [t[0], t[2], t[4], t[6], t[8]], [t[1]]]);
-        let c = json!({"cell": "dict_hist", "variant": variant, "big": big_json(kind, n, seed), "patterns": pv, "ops": fixed});
+        // queries 8-10: exactly at / one past the default max_pattern_length (256), and one running to the end of the text
+        let pv = json!([{"sub": [n / 3, 9]}, {"sub": [n / 2, 5], "push": 7}, {"sub": [n - 6, 6]}, [0, 0, 0], {"sub": [17, 4]}, {"sub": [n / 5, 300]}, [t[0], t[2], t[4], t[6], t[8]], [t[1]],
+            {"sub": [n / 7, 256]}, {"sub": [n / 7, 257]}, {"sub": [n - 300, 300]}]);
+        let mut ops = fixed.clone();
+        for o in [[3u64, 8, 0], [3, 9, 0], [3, 4, 0], [2, 5, 0], [2, 8, 16], [2, 10, 0], [10, 9, 4], [0, 10, 0], [3, 10, 2]] { ops.push(json!(o)); }
+        let c = json!({"cell": "dict_hist", "variant": variant, "big": big_json(kind, n, seed), "patterns": pv, "ops": ops});
         cx.sum.dist("breadth_dict_big_texts");
         dict_hist_case(cx, &c);
     }
